@@ -42,7 +42,7 @@ def run(ctx):
                 break                  # one stuck generator is enough of a symptom; do not wait for the others
             try:
                 rc, out = sh([os.path.join(BIN, "h_query"), "-mode", "gen", "-family", fam, "-n", str(n), "-seed", str(ctx.seed)],
-                             cwd=REPO, env=vcheck.goenv(), timeout=1200 / vcheck.TSCALE)
+                             cwd=REPO, env=vcheck.goenv(), timeout=600 / vcheck.TSCALE)
             except Exception as e:     # the generator executes its statements on the engine: a hang there is a symptom
                 rc, out = 1, "h_query -mode gen did not finish: %r" % e
             if rc != 0:
